@@ -37,7 +37,8 @@ literally as that theorem states them, from `HX w`.
 * C13Q (`Static' ∧ Init ∧ InitQ`): the class of C06W (`HC06W`, with `StaticD`) and `C13Q.InitQ`, which
   has its own instance.  C18D (`C18D.SD`): a `structure` of `C18W.Static (noScr w)`, `C18W.Fresh w`,
   `C20W.Reg w` and a clause over the operations of the scripts; spelled out field by field, exact
-  (`HC18D_iff`).
+  (`HC18D_iff`).  C19D (`C19D.SDS`): the same structure with the clause over the scripts stated with
+  `C19D.opDS`; spelled out field by field, exact (`HC19D_iff`).
 -/
 import SimProc.Props.C01W
 import SimProc.Props.C02
@@ -62,6 +63,7 @@ import SimProc.Props.C17W
 import SimProc.Props.C18W
 import SimProc.Props.C18D
 import SimProc.Props.C19W
+import SimProc.Props.C19D
 import SimProc.Props.C20W
 
 namespace SimProc
@@ -401,6 +403,30 @@ theorem HC18D_iff (w : World) : HC18D w ↔ C18D.SD w :=
      ⟨f.notStarted, f.queue, f.noTracked, f.idx, f.unreg, f.noFin, f.recs, f.results⟩, r, c⟩⟩
 theorem HC18D_sound {w : World} (h : HC18D w) : C18D.SD w := (HC18D_iff w).1 h
 
+/-- **C19D**: `C19D.periodic_sensor_dyn`, `sample_step_dyn`, `series_dyn`,
+`late_sensor_equals_early_shifted`, … (`C19D.SDS w0`: `C18W.Static` of the world without its scripts,
+`C18W.Fresh w0`, `C20W.Reg w0`, the scripts in the dynamic class `opDS`); field by field, exact. -/
+def HC19D (w : World) : Prop :=
+  ((∀ a ∈ (C18W.tk (C03W.noScr w)).ta, a ≠ 0 ∧ ∀ d ∈ (C03W.noScr w).devs, d.aid ≠ a) ∧
+   (∀ l ∈ (C03W.noScr w).scripts, ∀ op ∈ l, C18W.opOK (C18W.tk (C03W.noScr w)).ta op = true) ∧
+   (∀ sw ∈ (C03W.noScr w).scheds, ∀ p ∈ sw.s.tt, 0 ≤ p.1) ∧
+   (∀ sw ∈ (C03W.noScr w).sensors, sw.s.kind = .periodic → 0 ≤ sw.s.interval) ∧
+   (C03W.noScr w).assets.Nodup ∧ (∀ a ∈ (C03W.noScr w).assets, C18W.refOK (C03W.noScr w) a = true)) ∧
+  (w.started = false ∧ C01.Inv w.env ∧
+   (∀ e ∈ w.env.events ++ w.env.paused, C18W.tracked e = false) ∧
+   (∀ sw ∈ w.scheds, sw.s.idx = 0) ∧ (∀ sw ∈ w.sensors, sw.registered = false) ∧
+   (∀ d ∈ w.devs, d.finSensors = []) ∧ (∀ r ∈ w.recs, C18W.trackedRec r = false) ∧
+   (∀ r ∈ w.results, C18W.trackedRes r = false)) ∧
+  C20W.Reg w ∧
+  (∀ l ∈ w.scripts, ∀ op ∈ l, C19D.opDS (C18W.tk w).ta w.assets.length op = true)
+instance (w : World) : Decidable (HC19D w) := by unfold HC19D; infer_instance
+theorem HC19D_iff (w : World) : HC19D w ↔ C19D.SDS w :=
+  ⟨fun ⟨⟨a, b, c, d, e, f⟩, ⟨g, h, i, j, k, l, m, n⟩, r, s⟩ =>
+     ⟨⟨a, b, c, d, e, f⟩, ⟨g, h, i, j, k, l, m, n⟩, r, s⟩,
+   fun ⟨s, f, r, c⟩ => ⟨⟨s.aids, s.scr, s.dur, s.ivl, s.nodup, s.refs⟩,
+     ⟨f.notStarted, f.queue, f.noTracked, f.idx, f.unreg, f.noFin, f.recs, f.results⟩, r, c⟩⟩
+theorem HC19D_sound {w : World} (h : HC19D w) : C19D.SDS w := (HC19D_iff w).1 h
+
 /-- **C20W**: `C20W.reg_reachable`, `count_reachable` (`C20W.Reg w0`). -/
 def HC20W (w : World) : Prop := C20W.Reg w
 instance (w : World) : Decidable (HC20W w) := by unfold HC20W; infer_instance
@@ -485,6 +511,8 @@ def classReport (w : World) : List (String × Bool) :=
     -- `C18D.pending_transition_dyn` …: `C18D.SD w` (field by field, exact)
     ("C18D", flag (HC18D w)),
     ("C19W", flag (HC18W w)),
+    -- `C19D.periodic_sensor_dyn`, `series_dyn` …: `C19D.SDS w` (field by field, exact)
+    ("C19D", flag (HC19D w)),
     -- `C20W.reg_reachable`: `C20W.Reg w`
     ("C20W", flag (HC20W w)) ]
 
@@ -540,11 +568,12 @@ theorem classReport_spec (w : World) :
     (flagOf w "C18W" = some true → C18W.Static w ∧ C18W.Fresh w) ∧
     (flagOf w "C18D" = some true → C18D.SD w) ∧
     (flagOf w "C19W" = some true → C18W.Static w ∧ C18W.Fresh w) ∧
+    (flagOf w "C19D" = some true → C19D.SDS w) ∧
     (flagOf w "C20W" = some true → C20W.Reg w) := by
   simp only [flagOf, classReport, List.lookup, String.reduceBEq, Option.some.injEq, flag_iff]
   refine ⟨id, HC02_sound, (HC02W_iff w).1, id, id, id, id, id, id, HC05W_sound, HC06W_sound,
     HC02_sound, (HC08S_iff w).1, HC09W_sound, id, id, id, id, HC13Q_sound, id, id, id, id, id, id, (HC15DW_iff w).1, ?_, id, id,
-    HC17W_sound, fun h => ⟨HC17W_sound h.1, h.2⟩, (HC18W_iff w).1, HC18D_sound, (HC18W_iff w).1, id⟩
+    HC17W_sound, fun h => ⟨HC17W_sound h.1, h.2⟩, (HC18W_iff w).1, HC18D_sound, (HC18W_iff w).1, HC19D_sound, id⟩
   intro h
   exact ⟨h.1, (C02W.dynAuto_iff w).1 h.2⟩
 
